@@ -114,6 +114,7 @@ func c19Scenario(name string, depth int, howAxis bool) *explore.Scenario {
 			clock := func() time.Time { return now }
 			ref := map[string]*cachedRef{}
 			var hist []string
+			var failedOffers [][]byte
 			var prev c19Step
 			for k := 0; k < depth; k++ {
 				var st c19Step
@@ -293,6 +294,16 @@ func c19Scenario(name string, depth int, howAxis bool) *explore.Scenario {
 					}
 				}
 				offered := offeredTicket != nil || offeredPSK != nil
+				// a session whose resumption attempt failed is thrown away (RFC 5077 3.2, and the only
+				// way out of a corrupted or unusable PSK): it must not be offered again, or one failure
+				// repeats for the ticket's lifetime
+				for _, off := range [][]byte{offeredTicket, offeredPSK} {
+					for _, f := range failedOffers {
+						if off != nil && bytes.Equal(off, f) {
+							r.Violate(fmt.Sprintf("C19|failed-session-offered-again|vers=%04x", vers), "history %s: connection %d offers the very session whose resumption attempt failed on an earlier connection (handshake result now: client %v)", what, k, hs.CErr)
+						}
+					}
+				}
 				c := ref[name]
 				if !hs.OK() || !hs.EchoOK {
 					who := whoFailed(hs)
@@ -303,6 +314,16 @@ func c19Scenario(name string, depth int, howAxis bool) *explore.Scenario {
 					emsMismatch := c != nil && c.ems != p.ems
 					r.Violate(fmt.Sprintf("C19|handshake-fails|%s|%s-abort|hrr=%v|ems-mismatch=%v|%s", cause, who, st.server == 2, emsMismatch && offered, truncStr(errClass(pickErr(hs)), 70)),
 						"history %s: handshake %d failed (%s side): client %v / server %v", what, k, who, hs.CErr, hs.SErr)
+					if offered && k+1 < depth {
+						// go on: the following connection must not be wedged by this failure
+						for _, off := range [][]byte{offeredTicket, offeredPSK} {
+							if off != nil {
+								failedOffers = append(failedOffers, off)
+							}
+						}
+						delete(ref, name)
+						continue
+					}
 					return
 				}
 				cs, ss := hs.U.ConnectionState(), hs.S.ConnectionState()
@@ -373,7 +394,7 @@ func c19Scenarios(thorough bool) []*explore.Scenario {
 func init() {
 	register(&Prop{ID: "C19", Level: "model_checking", Variant: "A", Scenarios: c19Scenarios,
 		Run: func(c *explore.Check, thorough bool) {
-			c.Rule = "histories of 3 (4) connections sharing one ClientSessionCache and one server ticket key: the first two steps range over the full product of 7 clients (Chrome_100, Chrome_100_PSK, Chrome_112_PSK_Shuf, Firefox_120, Golang, custom TLS 1.2 with and without extended_master_secret) x server {TLS 1.2, TLS 1.3, TLS 1.3 answering with an HRR} x server name {a, b} x clock {+1 min, +8 days}; later steps repeat the previous step with <=2 deviations; every step handshakes, echoes (absorbing NewSessionTicket) and closes; plus all 2-connection histories (servers additionally: TLS 1.3 forced to TLS_CHACHA20_POLY1305_SHA256) with the second connection reached by {Handshake, BuildHandshakeState+Handshake, BuildHandshakeState+SetClientRandom+Handshake, BuildHandshakeState twice+Handshake, BuildHandshakeStateWithoutSession+Handshake, BuildHandshakeStateWithoutSession+BuildHandshakeState+Handshake}. Oracle per step against a reference cache: must resume iff an unexpired session of the same parrot/name/version exists and the spec carries the needed extension (also through an HRR); DidResume agrees on both ends; pre_shared_key last and well-formed; no handshake failure at all; no ticket issued for one name offered to another. distinct = history"
+			c.Rule = "histories of 3 (4) connections sharing one ClientSessionCache and one server ticket key: the first two steps range over the full product of 7 clients (Chrome_100, Chrome_100_PSK, Chrome_112_PSK_Shuf, Firefox_120, Golang, custom TLS 1.2 with and without extended_master_secret) x server {TLS 1.2, TLS 1.3, TLS 1.3 answering with an HRR} x server name {a, b} x clock {+1 min, +8 days}; later steps repeat the previous step with <=2 deviations; every step handshakes, echoes (absorbing NewSessionTicket) and closes; plus all 2-connection histories (servers additionally: TLS 1.3 forced to TLS_CHACHA20_POLY1305_SHA256) with the second connection reached by {Handshake, BuildHandshakeState+Handshake, BuildHandshakeState+SetClientRandom+Handshake, BuildHandshakeState twice+Handshake, BuildHandshakeStateWithoutSession+Handshake, BuildHandshakeStateWithoutSession+BuildHandshakeState+Handshake}. Oracle per step against a reference cache: must resume iff an unexpired session of the same parrot/name/version exists and the spec carries the needed extension (also through an HRR); DidResume agrees on both ends; pre_shared_key last and well-formed; no handshake failure at all; no ticket issued for one name offered to another; after a failed resumption attempt the history goes on and the session that failed is never offered again. distinct = history"
 			c.Assumptions = []string{"reference resumption table (mc/props/c19.go) written from the property statement; ticket lifetime 7 days", "OmitEmptyPsk is on for every client"}
 			runAll(c, c19Scenarios(thorough), 0)
 			c.Gate(c.Total.Counters["resumed"] > 500, "non-vacuity: %d resumed connections", c.Total.Counters["resumed"])
